@@ -72,6 +72,9 @@ func (st *FaultState) before(op, path, natural string) *ErrInjected {
 	}
 	pos := st.Pos
 	st.Pos++
+	if debugOps {
+		fmt.Printf("DEBUG   remote %d: %s %s\n", st.Pos, op, path)
+	}
 	if st.KeepTrace {
 		st.Trace = append(st.Trace, op+" "+path)
 	}
